@@ -531,7 +531,7 @@ func runScenario(a *agg, name, tier string, seed uint64, budget time.Duration) {
 			for time.Now().Before(deadline) {
 				if stopOnViolation {
 					a.mu.Lock()
-					found := len(a.viol) > 0
+					found := firstUnlisted(a) != ""
 					a.mu.Unlock()
 					if found {
 						return
@@ -569,6 +569,20 @@ func runScenario(a *agg, name, tier string, seed uint64, budget time.Duration) {
 }
 
 var stopOnViolation bool
+var smokeKnown knownFile
+var smokeProp string
+
+// firstUnlisted returns the first violation signature of a that is not a listed known finding.
+func firstUnlisted(a *agg) string {
+	for _, r := range a.viol {
+		for _, v := range r.Violations {
+			if _, ok := smokeKnown.match(smokeProp, v.Sig); !ok {
+				return v.Sig
+			}
+		}
+	}
+	return ""
+}
 
 // smokeMain: one build, then every scenario of the listed properties (comma separated, or ALL) for
 // VERIF_BUDGET_SEC seconds each (default 10), stopping at the first violation. No minimisation, no
@@ -593,11 +607,13 @@ func smokeMain(list string) int {
 	build()
 	defer cleanup()
 	stopOnViolation = true
+	smokeKnown = loadKnown()
 	for _, id := range ids {
 		ps, ok := props[id]
 		if !ok {
 			die(2, "unknown property %s", id)
 		}
+		smokeProp = id
 		for _, sb := range ps.Scenarios {
 			a := &agg{hashes: map[string]bool{}, faults: map[string]int{}, probes: map[string]int{}, perScenario: map[string]int{}, panicClasses: map[string]int{}, points: map[string]bool{}, spawns: map[string]int{}}
 			runScenario(a, sb.Name, "quick", seed, time.Duration(secs)*time.Second)
@@ -606,8 +622,8 @@ func smokeMain(list string) int {
 				cleanup()
 				return 2
 			}
-			if len(a.viol) > 0 {
-				fmt.Printf("SMOKE-RESULT caught property=%s scenario=%s signature=%s\n", id, sb.Name, a.viol[0].Violations[0].Sig)
+			if sig := firstUnlisted(a); sig != "" {
+				fmt.Printf("SMOKE-RESULT caught property=%s scenario=%s signature=%s\n", id, sb.Name, sig)
 				cleanup()
 				return 1
 			}
